@@ -58,7 +58,8 @@ def make_content(rng, kind, eff_enc, own_diff_enc=None):
             lines = ['plain']
             raw_nl = spec.bomfree(nl, enc)
             body_lines = [spec.bomfree('plain' + nl, enc)]
-        if any(bl.count(raw_nl) != 1 or not bl.endswith(raw_nl) for bl in body_lines):
+        raw_lf = spec.bomfree('\n', enc)
+        if any(bl.count(raw_nl) != 1 or bl.count(raw_lf) != 1 or not bl.endswith(raw_nl) for bl in body_lines):
             lines = ['plain']
             text = 'plain' + nl
             body_lines = [spec.bomfree('plain' + nl, enc)]
@@ -333,3 +334,25 @@ def add_unknown_options(f, rng):
         s['opts'].insert(rng.randint(0, len(s['opts'])), [key, val])
         added.setdefault(k, {})[key] = conv(val)
     return g, added
+
+
+def misaligned_file(rng):
+    """A well-formed file whose UTF-16/32 text contains the newline BYTES at a position that is not a character
+    boundary (e.g. U+0A41 U+2000 in UTF-16-LE is 41 0a 00 20): a producer that indents/splits by characters writes this;
+    a byte-level search for the newline sees a line break inside a character pair."""
+    enc = rng.choice(['utf-16-le', 'utf-16-be', 'utf-32-le'])
+    pair = {'utf-16-le': '\u0a41\u2000', 'utf-16-be': '\u2000\u0a20', 'utf-32-le': '\U00000a41\u2000'}[enc]
+    if enc == 'utf-32-le':
+        pair = '\u0a41\u2000'
+    lines = ['first', 'x' + pair + 'y', 'last']
+    nl = '\n'
+    indent = rng.choice([2, 4])
+    declared = rng.choice([None, 'unix'])
+    body = b''.join(b' ' * indent + spec.bomfree(l + nl, enc) for l in lines)
+    opts = [('indent', str(indent)), ('length', str(len(body)))]
+    if declared:
+        opts.append(('line_endings', declared))
+    secs = [dict(id='diffx', opts=[['version', '1.0'], ['encoding', enc]], blank=[], content=None, expect={}, enc=None),
+            dict(id='.preamble', opts=[[k, v] for k, v in opts], blank=[], content=body.hex(),
+                 expect=dict(text=nl.join(lines) + nl), enc=enc)]
+    return dict(sections=secs, crlf=False, trailing=[])
